@@ -183,7 +183,27 @@ def _c04_tables(repo, t):
     ex.append("/-- `DISABLE_OR` of exp_transformers.py -/\n"
               "def disableOr : Bool := " + ("true" if t["disableOr"] else "false"))
     t.setdefault("_extra", []).extend(_c10_tables(repo))
+    t.setdefault("_extra", []).extend(_c07_tables(repo))
     return t
+
+
+def _c07_tables(repo):
+    """C07: the names `Env.bind_function` refuses besides the known types (`RESERVED_FUNCTION_NAMES` of env.py, a
+    tuple of string literals); a tree without the constant refuses none"""
+    tree = _parse(repo, "qlasskit/ast2logic/env.py")
+    try:
+        node = _list_assign(tree, "RESERVED_FUNCTION_NAMES")
+    except KeyError:
+        names = []
+    else:
+        if not isinstance(node, (ast.List, ast.Tuple)) or not all(
+                isinstance(e, ast.Constant) and isinstance(e.value, str) for e in node.elts):
+            raise ValueError("RESERVED_FUNCTION_NAMES: expected a tuple of string literals")
+        names = [e.value for e in node.elts]
+    return [
+        "/-- `RESERVED_FUNCTION_NAMES` of ast2logic/env.py, in source order -/\n"
+        "def reservedFunctionNames : List String := " + lean_list(lean_str(n) for n in names),
+    ]
 
 
 def _c10_tables(repo):
